@@ -4,6 +4,7 @@ import (
 	"bufio"
 	"fmt"
 	"io"
+	"os"
 	"os/exec"
 	"sort"
 	"strings"
@@ -22,6 +23,7 @@ type Solver struct {
 	in        io.WriteCloser
 	out       *bufio.Reader
 	epoch     int
+	defined   map[*Term]int // term -> epoch in which THIS solver defined it (several solvers share the terms)
 	nDefs     int
 
 	// stats
@@ -48,6 +50,14 @@ func nextEpoch() int {
 	return epochCounter
 }
 
+// rlimitPerMs: z3 resource units granted per millisecond of nominal time-out;
+// wallSlack: how much longer than the nominal time-out a query may run on a
+// loaded machine before the wall-clock backstop ends it
+const (
+	rlimitPerMs = 8000
+	wallSlack   = 8
+)
+
 func newSolver(kind string, timeoutMs int, fresh bool) *Solver {
 	s := &Solver{kind: kind, timeoutMs: timeoutMs, fresh: fresh}
 	s.start()
@@ -58,9 +68,14 @@ func (s *Solver) start() {
 	var cmd *exec.Cmd
 	switch s.kind {
 	case "z3", "z3-new":
-		cmd = exec.Command(s.kind, "-in", fmt.Sprintf("-t:%d", s.timeoutMs))
+		// The bound on a query is z3's deterministic resource limit (rlimit,
+		// per check-sat; measured here: about 8 million units per second on an
+		// idle core), so that the verdict does not depend on how busy the
+		// machine is. The wall-clock limit is only a backstop, several times
+		// longer.
+		cmd = exec.Command(s.kind, "-in", fmt.Sprintf("-t:%d", s.timeoutMs*wallSlack))
 	case "cvc5":
-		cmd = exec.Command("cvc5", "--incremental", "--lang", "smt2", "--produce-models", fmt.Sprintf("--tlimit-per=%d", s.timeoutMs))
+		cmd = exec.Command("cvc5", "--incremental", "--lang", "smt2", "--produce-models", fmt.Sprintf("--tlimit-per=%d", s.timeoutMs*3))
 	default:
 		panic("solver kind " + s.kind)
 	}
@@ -78,12 +93,14 @@ func (s *Solver) start() {
 	}
 	s.cmd, s.in, s.out = cmd, in, bufio.NewReaderSize(outp, 1<<16)
 	s.epoch = nextEpoch()
+	s.defined = map[*Term]int{}
 	s.nDefs = 0
 	s.send("(set-option :print-success false)")
 	if s.kind == "cvc5" {
 		s.send("(set-logic ALL)")
 	} else {
 		s.send("(set-option :produce-models true)")
+		s.send(fmt.Sprintf("(set-option :rlimit %d)", s.timeoutMs*rlimitPerMs))
 	}
 }
 
@@ -110,7 +127,10 @@ func (s *Solver) send(line string) {
 }
 
 func (s *Solver) define(t *Term) {
-	if t.epoch == s.epoch || t.op == "const" {
+	if s.defined == nil {
+		s.defined = map[*Term]int{}
+	}
+	if s.defined[t] == s.epoch || t.op == "const" {
 		return
 	}
 	// iterative post-order
@@ -121,14 +141,14 @@ func (s *Solver) define(t *Term) {
 	st := []fr{{t, 0}}
 	for len(st) > 0 {
 		top := &st[len(st)-1]
-		if top.t.epoch == s.epoch || top.t.op == "const" {
+		if s.defined[top.t] == s.epoch || top.t.op == "const" {
 			st = st[:len(st)-1]
 			continue
 		}
 		if top.i < len(top.t.args) {
 			a := top.t.args[top.i]
 			top.i++
-			if a.epoch != s.epoch && a.op != "const" {
+			if s.defined[a] != s.epoch && a.op != "const" {
 				st = append(st, fr{a, 0})
 			}
 			continue
@@ -139,7 +159,7 @@ func (s *Solver) define(t *Term) {
 		} else {
 			s.send(fmt.Sprintf("(define-fun t!%d () %s %s)", n.id, n.sort.SMT(), n.bodySMT()))
 		}
-		n.epoch = s.epoch
+		s.defined[n] = s.epoch
 		s.nDefs++
 		st = st[:len(st)-1]
 	}
@@ -218,8 +238,12 @@ func (s *Solver) Check(asserts []*Term, wantModel bool, extra []*Term) Result {
 		if s.kind == "cvc5" {
 			s.send("(set-logic ALL)")
 			s.send("(set-option :produce-models true)")
+		} else {
+			s.send("(set-option :produce-models true)")
+			s.send(fmt.Sprintf("(set-option :rlimit %d)", s.timeoutMs*rlimitPerMs))
 		}
 		s.epoch = nextEpoch()
+		s.defined = map[*Term]int{}
 	} else if s.nDefs > 200000 {
 		s.restart()
 	}
@@ -257,7 +281,7 @@ func (s *Solver) Check(asserts []*Term, wantModel bool, extra []*Term) Result {
 			return Result{Res: "unknown", Err: "solver died: " + r.err.Error() + " " + r.s}
 		}
 		line = r.s
-	case <-time.After(time.Duration(s.timeoutMs)*time.Millisecond + 15*time.Second):
+	case <-time.After(time.Duration(s.timeoutMs*wallSlack)*time.Millisecond + 30*time.Second):
 		s.Errors++
 		s.restart()
 		s.Unknown++
@@ -325,6 +349,9 @@ func (s *Solver) Check(asserts []*Term, wantModel bool, extra []*Term) Result {
 		s.Errors++
 		s.Unknown++
 		res = Result{Res: "unknown", Err: "solver said: " + line}
+		if os.Getenv("SYMGO_SOLVERDBG") != "" {
+			fmt.Fprintf(os.Stderr, "[solver %s] %s\n", s.kind, truncate(line, 400))
+		}
 		s.restart()
 		return res
 	}
